@@ -9,6 +9,7 @@ from ..explore import bfs
 from ..seam2 import SiteWorld, endpoint
 
 from aiocoap import Message, GET, PUT, POST, resource
+from aiocoap.numbers.codes import NOT_FOUND
 
 PROP = "C06"
 LEVEL = "model_checking"
@@ -50,7 +51,11 @@ def make_world(rlen):
 
             async def render_get(self, request):
                 st.renders[0] += 1
-                return Message(payload=bytes([st.renders[0] & 0xFF]) + bytes((i * 3 + st.renders[0]) & 0xFF for i in range(1, rlen)) if rlen else b"")
+                if rlen < 0 and st.renders[0] % 2 == 0:
+                    # a resource that is sometimes gone: every second rendering is a short unsuccessful response
+                    return Message(code=NOT_FOUND, payload=b"gone")
+                L = abs(rlen)
+                return Message(payload=bytes([st.renders[0] & 0xFF]) + bytes((i * 3 + st.renders[0]) & 0xFF for i in range(1, L)) if L else b"")
         site = resource.Site()
         site.add_resource(["a"], R("a"))
         site.add_resource(["b"], R("b"))
@@ -188,7 +193,11 @@ def apply(st, op):
                 viol("render-count", 1, rendered, "blockwise.py:Block2Cache.extract_or_insert", "render")
                 return
             n = st.renders[0]
-            R = (bytes([n & 0xFF]) + bytes((i * 3 + n) & 0xFF for i in range(1, st.rlen))) if st.rlen else b""
+            L = abs(st.rlen)
+            R = (bytes([n & 0xFF]) + bytes((i * 3 + n) & 0xFF for i in range(1, L))) if L else b""
+            okcode = "2.05"
+            if st.rlen < 0 and n % 2 == 0:
+                R, okcode = b"gone", "4.04"
             sz = size if num is not None else 1024
             if len(R) > sz:
                 st.rend[key] = [R, now, True]
@@ -198,8 +207,8 @@ def apply(st, op):
                 if num is not None:
                     st.rend[key] = [R, now, False]     # block-0 request whose rendering fitted: may or may not be cached
                 # (a request without Block2 that is answered whole is not a block request: earlier renderings stay as they are)
-                ok = code == "2.05" and body == R and (b2 is None or b2[:2] == (0, False))
-                exp = ("2.05", "whole rendering")
+                ok = code == okcode and body == R and (b2 is None or b2[:2] == (0, False))
+                exp = (okcode, "whole rendering")
             if not ok:
                 viol("block2-first", exp, {"code": code, "block2": b2, "len": len(body)}, "blockwise.py:Block2Cache.extract_or_insert", "first")
         else:
@@ -345,7 +354,7 @@ def run(tier, seed, jobs):
     d1 = 3 if tier == "quick" else 5
     d2 = 3 if tier == "quick" else 4
     work = [("b1", op, 20, d1) for op in ops_b1()]
-    for rlen in (0, 17, 20, 64, 200) if tier == "thorough" else (17, 64):
+    for rlen in (0, 17, 20, 64, 200, -64, -20) if tier == "thorough" else (17, 64, -64):
         work += [("b2", op, rlen, d2) for op in ops_b2()]
     # long transfers: every gap short, total duration beyond the lifetime (state must be refreshed by each use)
     long1 = (("b1", 1, 0, 1, 0, 16, "a", None, "PUT"), ("t", MTW - 0.1), ("b1", 1, 1, 1, 0, 16, "a", None, "PUT"))
